@@ -153,3 +153,47 @@ def run_known_replays(ids):
         return res
     finally:
         shutil.rmtree(d, ignore_errors=True)
+
+
+BOUNDED_FILE_NAME = dict(
+    label='bounded', counted_as_proved=False,
+    functions=['Config::chunk_file_name', 'Config::parse_chunk_file_name', 'num::format_pad_u64', 'num::format_grouped'],
+    why='format!/str/char-iterator code: outside Verus\' reach; the full-domain Kani harness did not terminate (DESIGN 11.3 E23)',
+    bound='finite set S of u64 offsets: 0,1,MAX-1,MAX; 2^k-1,2^k,2^k+1 (k<64); 10^k-1,10^k,10^k+1 and d*10^k (d in 1..9, k<20); 200000 values of a fixed LCG shifted '
+          'to every magnitude (about 161000 distinct values); 2400 malformed names derived from the first 400 names',
+    clauses=['parse_chunk_file_name(chunk_file_name(x)) == Ok(x)', 'name is "r-" + 26 characters + ".wal"', 'x < y ==> name(x) < name(y) as strings (name order == offset order)',
+             'a name with a dropped/doubled character or a wrong prefix/suffix is rejected'],
+    harness='replays/bounded/file_name_codec.rs, injected as src/tests/test_verif_bounded.rs into a scratch copy of the tree under check; runs the real functions')
+
+
+def run_bounded_file_name_codec(timeout=1500):
+    """C11: bounded stand-in for the file-name codec (labelled bounded, never counted as proved).
+    returns dict(status='ok'|'failed'|'not-run', ...)"""
+    d = scratch_copy()
+    try:
+        test = open(os.path.join(ROOT, 'replays', 'bounded', 'file_name_codec.rs')).read()
+        open(os.path.join(d, 'src', 'tests', 'test_verif_bounded.rs'), 'w').write(test)
+        open(os.path.join(d, 'src', 'tests', 'mod.rs'), 'a').write('\nmod test_verif_bounded;\n')
+        env = dict(os.environ, CARGO_NET_OFFLINE='true', CARGO_TARGET_DIR=os.environ.get('VERIF_TEST_TARGET', '/tmp/verif_test_target'))
+        p = subprocess.run('cargo test --offline --lib verif_bounded -- --nocapture 2>&1 | tail -40', shell=True, cwd=d, env=env, capture_output=True, text=True, timeout=timeout)
+        out = p.stdout
+        res = dict(BOUNDED_FILE_NAME)
+        ok = next((l for l in out.split('\n') if 'VERIF-BOUNDED-OK' in l), None)
+        bad = next((l for l in out.split('\n') if 'VERIF-BOUNDED-FAIL' in l), None)
+        if bad:
+            res.update(status='failed', output=bad.strip()[:600], test=test)
+        elif ok and 'test result: ok. 1 passed' in out:
+            res.update(status='ok', output=ok.strip())
+        else:
+            pan = next((l for l in out.split('\n') if 'panicked' in l), None)
+            if pan and 'test_verif_bounded' in out and 'running 1 test' in out:
+                res.update(status='failed', output=pan.strip()[:600], test=test)
+            else:
+                res.update(status='not-run', output=out[-800:])
+        return res
+    except Exception as e:
+        res = dict(BOUNDED_FILE_NAME)
+        res.update(status='not-run', output=repr(e)[:400])
+        return res
+    finally:
+        shutil.rmtree(d, ignore_errors=True)
